@@ -15,7 +15,7 @@ RULE = ('case = (container tree over list/tuple/set/frozenset/dict whose leaves 
         'and the walk recurses; for d > height the text is identical to depth=None. Tolerances (statement silent / '
         'documented): str/bytes dict keys exactly at the cut may print in full; empty list/tuple/set beyond the cut may '
         'print in full. Generic cases: trees that also hold pretty_call objects (one / several positional and keyword '
-        'arguments), deque, OrderedDict, defaultdict, Counter, ChainMap, mappingproxy, namedtuple and SimpleNamespace are '
+        'arguments), dataclass / attrs instances (extras installed), deque, OrderedDict, defaultdict, Counter, ChainMap, mappingproxy, namedtuple and SimpleNamespace are '
         'judged by a walk driven by the two syntax trees with a level band per node (a list / dict / tuple literal passed '
         'as a positional argument may or may not count as a container of its own): full form required when the highest '
         'count is < d, placeholder of the node\'s own type required when the lowest count is >= d, otherwise same node '
@@ -124,6 +124,10 @@ def strategy(tier):
             st.tuples(st.sampled_from(['box', 'alt']), st.lists(ch, max_size=3),
                       st.lists(st.tuples(st.sampled_from(['a', 'b']), ch).map(list), max_size=2, unique_by=lambda p: p[0])).map(
                 lambda p: ['call', p[0], p[1], p[2]]),
+            # dataclass / attrs instances (extras installed): fields are keyword arguments
+            st.tuples(ch, st.lists(ch, max_size=2)).map(lambda p: ['dcinst', 'DInner', [p[0], ['list', p[1]]]]),
+            st.tuples(ch, ch).map(lambda p: ['dcinst', 'DFrozen', [p[0], p[1]]]),
+            st.tuples(ch, st.lists(ch, max_size=2)).map(lambda p: ['dcinst', 'AInner', [p[0], ['list', p[1]]]]),
         )
     small = st.recursive(gleaf, gext, max_leaves=8)
     parts = stdvals.std_strategy(S, payload=small, hashable=ghash)
@@ -315,6 +319,8 @@ def walk_generic(full, cut, a, b, d, iskey=False):
 
 def oracle_generic(case):
     from .. import stdvals, vtypes
+    from . import c17
+    c17._install()      # dataclasses / attrs extras
     v = values.build(case['v'])
     d = case['d']
     w = case['width']
@@ -353,6 +359,8 @@ def fixed_cases():
         yield {'v': ['std', 'ntuple', 'Point', [inner, ['int', 5]]], 'd': d, 'width': 79, 'generic': True}
         yield {'v': ['call', 'box', [inner], []], 'd': d, 'width': 79, 'generic': True}
         yield {'v': ['call', 'alt', [inner, ['int', 4]], [['a', inner]]], 'd': d, 'width': 79, 'generic': True}
+        yield {'v': ['dcinst', 'DInner', [inner, ['list', [inner, ['dcinst', 'AInner', [['int', 5], ['list', [inner]]]]]]]], 'd': d, 'width': 79, 'generic': True}
+        yield {'v': ['list', [['dcinst', 'DFrozen', [['list', [['int', 1]]], ['dict', [[['str', 'k'], inner]]]]]]], 'd': d, 'width': 79, 'generic': True}
     for d in (0, 1, 2, 3, None):        # special floats are floats: full above the cut, float(...) below
         yield {'v': ['list', [['float', 'inf'], ['list', [['float', 'nan'], ['float', '1.5']]], ['dict', [[['float', '-inf'], ['int', 1]]]]]], 'd': d, 'width': 200}
     deep = ['dict', [[['str', 's1'], ['cmt', 'a comment long enough to go above the value', ['list', [['int', 1], ['list', [['int', 2], ['list', [['int', 3]]]]]]]]]]]
